@@ -837,7 +837,7 @@ Section RunP2.
     hp. constructor; [exact I| |exact I]. cbn. apply andb_true_iff in Heqb2 as [A _]. apply step_eqb_true; auto.
   Qed.
 
-  Lemma P_recv_vote curh v s : P s -> known s v -> P (recv_vote n own blocks delay curh v s).
+  Lemma P_recv_vote curh v s : P s -> (vol_ok s -> known s v) -> P (recv_vote n own blocks delay curh v s).
   Proof.
     intros HP K. cbv beta delta [recv_vote]. destruct (negb curh); auto.
     apply run_P; auto. constructor; [exact I|exact I|exact K].
@@ -846,15 +846,16 @@ Section RunP2.
   Lemma P_timeout s : P s -> P (timeout n own blocks delay s).
   Proof. intro HP. cbv beta delta [timeout]. hp. Qed.
 
-  Lemma P_commit_cb rr ok s : P s -> P (commit_cb blocks rr ok s).
+  Lemma P_commit_cb rr ok s : P s -> status_ s = Running -> P (commit_cb blocks rr ok s).
   Proof.
-    intro HP. cbv beta delta [commit_cb]. destruct (commit_req s); auto. destruct (negb _); auto.
+    intros HP R. cbv beta delta [commit_cb]. destruct (commit_req s); auto. destruct (negb _); auto.
     plet_step. assert (H0 : P s0) by (subst s0; repeat ppeel).
     destruct (negb _) eqn:C; auto. destruct (negb ok); [apply P_panic; auto|].
     apply negb_false_iff, andb_true_iff in C as [_ C]. apply step_eqb_true in C.
     destruct (cur s0) as [p|] eqn:Cu; [|apply P_panic; auto].
     plet_step. apply P_set_status; [discriminate|]. subst s1. apply P_finalize; cbn; auto.
-    apply P_set_cur_same; auto. rewrite Cu; reflexivity.
+    - apply P_set_cur_same; auto. rewrite Cu; reflexivity.
+    - subst s0. cbn. exact R.
   Qed.
 
   Lemma P_propose_cb rr ok b s :
@@ -862,7 +863,7 @@ Section RunP2.
   Proof.
     intros HP R. cbv beta delta [propose_cb]. destruct (prop_req s) as [r|] eqn:Q; auto.
     destruct (negb (Z.eqb r rr)); auto.
-    pose proof (p_inv HP) as HI. pose proof (P_unblown HP) as U0.
+    pose proof (p_inv HP) as HI.
     plet_step. assert (H0 : P s0) by (subst s0; apply P_clear_prop_req; auto).
     destruct (negb _) eqn:C; auto.
     destruct (negb ok); [apply run_P; auto; constructor; exact I|].
@@ -872,7 +873,8 @@ Section RunP2.
     apply P_set_cur; [subst s1; autorewrite with frame; rewrite C2; discriminate|].
     subst s1. apply P_send_proposal; auto.
     - subst s0. cbn. auto.
-    - subst s0. cbn in *.
+    - intro U. subst s0. cbn in *.
+      assert (U0 : unblown s) by exact U.
       destruct (inv_ctl HI R U0) as [_ _ _ cq]. destruct (cq _ Q) as [_ B].
       unfold prop_ok; cbn. rewrite C2. repeat split.
       + cbn; lia.
@@ -885,12 +887,13 @@ Section RunP2.
   Proof.
     intros HP R. cbv beta delta [import_cb]. destruct (imp_req s) as [[r b]|] eqn:Q; auto.
     destruct (negb (Z.eqb r rr)); auto.
-    pose proof (p_inv HP) as HI. pose proof (p_invd HP) as HD. pose proof (P_unblown HP) as U0.
+    pose proof (p_inv HP) as HI. pose proof (p_invd HP) as HD.
     plet_step. assert (H0 : P s0) by (subst s0; apply P_clear_imp_req; auto).
     destruct (_ || _) eqn:C; auto.
     apply orb_false_iff in C as [C1 C2]. apply negb_false_iff, Z.eqb_eq in C1.
-    assert (OK : forall s', neutral s0 s' -> step_leb (stp s') SPrevoteWait = true -> vote_ok own s' Prevote).
-    { intros s' N L. eapply vote_ok_neutral; [exact N|].
+    assert (OK : forall s', neutral s0 s' -> step_leb (stp s') SPrevoteWait = true -> unblown s' -> vote_ok own s' Prevote).
+    { intros s' N L U. eapply vote_ok_neutral; [exact N|].
+      assert (U0 : unblown s) by (apply (unblown_neutral N) in U; subst s0; exact U).
       destruct (inv_ctl HI R U0) as [_ _ ci _]. destruct (ci _ _ Q) as [A B].
       rewrite (nt_stp N) in L. subst s0. cbn in *.
       unfold step_leb in L. apply N.leb_le in L. cbn in L.
@@ -918,5 +921,99 @@ Section RunP2.
       cbn [preD gev_ok]. unfold lock_of. rewrite NL; cbn; auto.
   Qed.
 
+
+  (* ------------------------------------------------------------------ crash and restart *)
+
+  Lemma P_crash kr kl kc s : P s -> P (crash kr kl kc s).
+  Proof.
+    intros [HI HD [L [T HS]]]. constructor.
+    - apply Inv_crash; auto.
+    - apply InvD_crash; auto.
+    - exists L, T. apply SimS_crash; auto.
+  Qed.
+
+  Lemma P_restart s : P s -> P (restart n own blocks delay s).
+  Proof.
+    intros [HI HD [L [T HS]]].
+    destruct (SimS_restart Hi Hbyz blocks_ok Hb3 HS HI HD) as [s0 [ok [L' [T' [E0 [HS0 [HI0 HD0]]]]]]].
+    assert (HP0 : P s0) by (constructor; eauto).
+    rewrite restart_decomp, E0. unfold restart_fin.
+    destruct (negb ok); [apply P_panic; auto|].
+    assert (D : P (start_dispatch n own blocks delay s0)).
+    { unfold start_dispatch. destruct (stp s0); auto.
+      - destruct (Z.eqb (round s0) 0).
+        + apply run_P; [|constructor; exact I]. apply P_new_step; [split; discriminate|discriminate|auto].
+        + apply run_P; [auto|constructor; exact I].
+      - apply run_P; [auto|constructor; exact I].
+      - destruct (vs_has23 _); auto. apply run_P; [auto|constructor; exact I].
+      - destruct (vs_has23 _); auto. apply run_P; [auto|constructor; exact I]. }
+    destruct L' as [[b lr]|]; auto.
+    destruct (negb (decodable blocks b)); auto. apply P_panic; auto.
+  Qed.
+
+  (* ------------------------------------------------------------------ one event, any crash point *)
+
+  (* at event boundaries a running engine has not passed a crash point *)
+  Definition PB (s : st) : Prop := P s /\ (status_ s = Running -> blown s = false).
+
+  Lemma P_set_outs fz s : PB s -> P (set_outs [] fz s).
+  Proof.
+    intros [[HI HD [L [T HS]]] B]. constructor.
+    - destruct HI as [d k c]. constructor; cbn; auto. intros R _. apply Ctl_set_outs. apply c; auto. unfold unblown. apply B; auto.
+    - eapply InvD_dsame; [apply ds_set_outs, dsame_refl|auto].
+    - exists L, T. eapply (@SimS_vol L s); [constructor; reflexivity| |cbn; auto|exact HS].
+      constructor; try reflexivity. intros [R _]. split; auto.
+  Qed.
+
+  (* the votes an event carries for the current height were known when the event began *)
+  Definition ev_k0 (e : event) : Prop :=
+    match e with
+    | EVote true v => K0 v
+    | EVoteList l => forall c v, In (c, v) l -> c = true -> K0 v
+    | _ => True
+    end.
+
+  Lemma P_k0 s v : P s -> K0 v -> known s v.
+  Proof. intros [_ _ [L [T H]]] K. apply (sr_k0 (ss_r H)); auto. Qed.
+
+  Lemma P_votelist l : forall s,
+    P s -> (forall c v, In (c, v) l -> c = true -> K0 v) ->
+    P (fold_left (fun s cv => recv_vote n own blocks delay (fst cv) (snd cv) s) l s).
+  Proof.
+    induction l as [|[c v] l IH]; intros s HP K; cbn [fold_left fst snd]; auto.
+    apply IH; [|intros c0 v0 H0; apply K; right; auto].
+    unfold recv_vote. destruct c; cbn [negb]; auto.
+    apply run_P; auto. constructor; [exact I|exact I|]. cbn [preS]. intros _. apply P_k0; auto. apply (K true v); auto. left; auto.
+  Qed.
+
+  Lemma P_step_ev e fz s : PB s -> ev_k0 e -> PB (step_ev n own blocks delay e fz s).
+  Proof.
+    intros HB K. cbv beta delta [step_ev].
+    set (s0 := set_outs [] fz s).
+    assert (H0 : P s0) by (subst s0; apply P_set_outs; auto).
+    clearbody s0. cbv zeta.
+    match goal with |- PB (if blown ?x then _ else _) => set (s1 := x) end.
+    assert (H1 : P s1).
+    { subst s1. destruct e; try (destruct (status_ s0) eqn:R; auto).
+      - apply P_recv_proposal; auto.
+      - apply P_recv_part; auto.
+      - destruct curh; [apply P_recv_vote; auto; intros _; apply P_k0; auto|unfold recv_vote; cbn [negb]; auto].
+      - apply P_votelist; auto.
+      - apply P_timeout; auto.
+      - apply P_propose_cb; auto.
+      - apply P_import_cb; auto.
+      - apply P_commit_cb; auto.
+      - apply P_crash; auto.
+      - apply P_crash; auto.
+      - apply P_restart; auto. }
+    clearbody s1. destruct (blown s1) eqn:B.
+    - split.
+      + apply P_set_status; auto. destruct (status_ s1); discriminate.
+      + cbn. destruct (status_ s1); discriminate.
+    - split; auto.
+  Qed.
+
+  Lemma PB_init_like s : P s -> status_ s <> Running -> PB s.
+  Proof. intros H N. split; auto. intro R. contradiction. Qed.
 
 End RunP2.
